@@ -23,6 +23,7 @@ type C03Plan struct {
 	Local    bool    `json:"local"`
 	Internal bool    `json:"internal"`
 	Cache    int     `json:"cache,omitempty"` // client-side read cache size (0 none)
+	Delay    bool    `json:"delay,omitempty"` // with a cache: the client interface delays its writes (DelayCachedWrites)
 	Ops      []C03Op `json:"ops"`
 }
 
@@ -35,6 +36,7 @@ type C03Op struct {
 	Seed    int    `json:"seed,omitempty"`
 	Prefix  int    `json:"prefix,omitempty"`
 	Wrapped bool   `json:"wrapped,omitempty"`
+	GetFault int   `json:"get_fault,omitempty"` // backend simfault: the n-th storage read during this client operation fails
 }
 
 var c03ClientKinds = []string{"get", "exists", "query", "feed", "insert", "setabs", "setrel", "makesecret", "makecrown", "delete", "purge", "putmany", "put", "putnew", "rtget", "rtquery", "rtfeed", "apiget", "apiquery", "apisub", "apiupdate", "apiinsert", "apidelete"}
@@ -51,6 +53,11 @@ func genC03(rng *rand.Rand, tier string) *C03Plan {
 	}
 	if rng.IntN(3) == 0 {
 		p.Cache = []int{2, 64}[rng.IntN(2)]
+		p.Delay = rng.IntN(3) == 0
+	}
+	faulty := rng.IntN(6) == 0
+	if faulty {
+		p.Backend = "simfault" // hashmap behind a storage whose reads can be made to fail
 	}
 	n := 3 + rng.IntN(14)
 	for i := 0; i < n; i++ {
@@ -62,6 +69,9 @@ func genC03(rng *rand.Rand, tier string) *C03Plan {
 		} else {
 			op.Who = "client"
 			op.Kind = c03ClientKinds[rng.IntN(len(c03ClientKinds))]
+			if faulty && rng.IntN(2) == 0 {
+				op.GetFault = 1 + rng.IntN(2)
+			}
 		}
 		p.Ops = append(p.Ops, op)
 	}
@@ -155,7 +165,24 @@ func execC03(p *C03Plan, rc *simkit.RunCtx) {
 	}
 	defer closeDB(dir)
 	s.priv = database.NewInterface(&database.Options{Local: true, Internal: true})
-	s.client = database.NewInterface(&database.Options{Local: p.Local, Internal: p.Internal, CacheSize: p.Cache})
+	copts := &database.Options{Local: p.Local, Internal: p.Internal, CacheSize: p.Cache}
+	if p.Delay && p.Cache > 0 {
+		copts.DelayCachedWrites = dbName
+	}
+	s.client = database.NewInterface(copts)
+	if copts.DelayCachedWrites != "" {
+		wctx, stopWriter := context.WithCancel(context.Background())
+		writerDone := make(chan struct{})
+		go func() {
+			_ = s.client.DelayedCacheWriter(wctx)
+			close(writerDone)
+		}()
+		defer func() {
+			stopWriter()
+			<-writerDone
+		}()
+		rc.Probe("client-delays-writes")
+	}
 	_, _ = s.priv.Get(dbName + ":warmup")
 	s.sub, err = s.client.Subscribe(query.New(dbName + ":"))
 	if err != nil {
@@ -258,6 +285,22 @@ func execC03(p *C03Plan, rc *simkit.RunCtx) {
 		prot := s.protected(key)
 		if prot {
 			rc.Probe("client-op-on-protected-" + op.Kind)
+		}
+		if copts.DelayCachedWrites != "" && !prot {
+			switch op.Kind {
+			case "insert", "setabs", "setrel", "makesecret", "makecrown", "delete", "put", "putnew", "putmany", "purge":
+				continue // legitimate delayed writes are C02's subject: here only what must be refused
+			}
+		}
+		faultGetIn = 0
+		if p.Backend == "simfault" && op.GetFault > 0 {
+			faultGetIn = op.GetFault
+			fired := faultGetFired
+			defer func() {
+				if faultGetFired > fired {
+					rc.Fault("storage-read-error")
+				}
+			}()
 		}
 		switch op.Kind {
 		case "get":
@@ -496,6 +539,7 @@ func execC03(p *C03Plan, rc *simkit.RunCtx) {
 				}
 			}
 		}
+		faultGetIn = 0
 		if rc.Failed() || !s.privView("after "+when) {
 			return
 		}
